@@ -7,3 +7,11 @@ package validate
 
 // Literal typing must not panic on any value a decoder can produce.
 //@ sweep C16 typechecker.go +Validator.typeOfValue
+
+// Every literal value gets a type or an error; values that are not bool,
+// long, string or entity have no literal type (error, never a panic).
+//@ func (Validator) typeOfValue
+//@   results t, err
+//@   noinline typeOfEntityUID
+//@   ensures (val is types.Boolean || val is types.Long || val is types.String) ==> (err == nil && t != nil)
+//@   ensures !(val is types.Boolean || val is types.Long || val is types.String || val is types.EntityUID) ==> err != nil
